@@ -1,1 +1,321 @@
-/- C14: property theorems (not yet built). -/
+/- C14 — YAML, TOML, Python, XML and INI manifestation denote the same data: property theorems
+   about the lexical layer (see Model/Manif.lean for the code mirrored, Model/ManifSpec.lean for the
+   independent readers, DESIGN.md §C14 for what is and is not claimed). -/
+import JrsVerif.Proofs.Manif
+import JrsVerif.Proofs.ManifStream
+import JrsVerif.Proofs.ManifDom
+
+namespace JrsVerif.Props.C14
+open JrsVerif.Manif JrsVerif.ManifSpec JrsVerif.Generated.Manif JrsVerif.ManifProofs JrsVerif.ManifVal
+
+/-! ## the shared escaper -/
+
+set_option maxRecDepth 100000 in
+/-- Bytes >= 0x80 (all bytes of non-ASCII characters) are never escaped by the extracted table, so
+    the character-level reading `Manif.escChar` of the byte-level Rust loop is exact. -/
+theorem escape_table_high_half_zero : ∀ i, i < 256 → 128 ≤ i → ESCAPE.getD i 0 = 0 := by
+  decide +kernel
+
+/-! ## TOML -/
+
+theorem toml_bare_class_sound (c : Char) (h : inRanges TOML_BARE_CLASS c = true) : tomlBareChar c = true := by
+  simp [inRanges, TOML_BARE_CLASS] at h
+  simp [tomlBareChar]
+  omega
+
+/-- `bare_allowed` only accepts what TOML calls an unquoted key: one or more of `A-Za-z0-9_-`. -/
+theorem bareAllowed_sound (s : List Char) (h : bareAllowed s = true) :
+    s ≠ [] ∧ s.all tomlBareChar = true := by
+  simp [bareAllowed, TOML_BARE_NONEMPTY_GUARD] at h
+  refine ⟨h.1, ?_⟩
+  simp only [List.all_eq_true]
+  intro c hc
+  exact toml_bare_class_sound c (by simpa [inRanges] using h.2 c hc)
+
+example : bareAllowed "a-b_9".toList = true := by decide
+example : bareAllowed [] = false := by decide
+
+set_option maxRecDepth 100000 in
+theorem toml_unit_ascii : ∀ n, n < 128 →
+    runPre tomlCfg .plain (unit TOML_EXTRA_ESCAPE (Char.ofNat n)) = some (.plain, [Char.ofNat n]) := by
+  decide +kernel
+
+theorem toml_unit (c : Char) : runPre tomlCfg .plain (unit TOML_EXTRA_ESCAPE c) = some (.plain, [c]) := by
+  by_cases h : c.toNat < 128
+  · have := toml_unit_ascii c.toNat h
+    rwa [Char.ofNat_toNat] at this
+  · have h' : 128 ≤ c.toNat := by omega
+    have hn : inRanges TOML_EXTRA_ESCAPE c = false := by
+      simp [inRanges, TOML_EXTRA_ESCAPE]; omega
+    rw [unit_high _ _ h', hn]
+    exact runPre_single tomlCfg c h' (by simp [tomlCfg]; omega)
+
+/-- Every string written by `escape_string_toml_buf` is a well-formed TOML basic string that an
+    independent reader of the TOML grammar decodes to exactly the source string. -/
+theorem toml_basic_roundtrip (s : List Char) : tomlBasic (escToml s) = some s := by
+  have hq : inRanges TOML_EXTRA_ESCAPE '"' = false := by decide
+  rw [escToml, reescape_escJson _ hq]
+  exact run_flatMap tomlCfg _ toml_unit s
+
+/-- Keys: bare when `bare_allowed`, otherwise a basic string; either way a TOML reader gets the key back. -/
+theorem toml_key_roundtrip (k : List Char) : ManifSpec.tomlKey (Manif.tomlKey k) = some k := by
+  unfold Manif.tomlKey
+  by_cases h : bareAllowed k = true
+  · obtain ⟨hne, hall⟩ := bareAllowed_sound k h
+    simp only [h, if_true]
+    match k, hne, hall with
+    | c :: cs, _, hall =>
+      have hc : tomlBareChar c = true := by
+        simp only [List.all_cons, Bool.and_eq_true] at hall; exact hall.1
+      have hq : c ≠ '"' := by
+        rintro rfl; revert hc; decide
+      unfold ManifSpec.tomlKey
+      split
+      · contradiction
+      · rename_i heq; simp at heq; exact absurd heq.1 hq
+      · simp [hall]
+  · simp only [h]
+    have hq : inRanges TOML_EXTRA_ESCAPE '"' = false := by decide
+    have := toml_basic_roundtrip k
+    rw [escToml, reescape_escJson _ hq] at this ⊢
+    simpa [ManifSpec.tomlKey] using this
+
+example : Manif.tomlKey [] = "\"\"".toList := by decide
+
+/-! ## Python -/
+
+set_option maxRecDepth 100000 in
+theorem py_unit_ascii : ∀ n, n < 128 →
+    runPre pyCfg .plain (unit [] (Char.ofNat n)) = some (.plain, [Char.ofNat n]) := by
+  decide +kernel
+
+theorem py_unit (c : Char) : runPre pyCfg .plain (unit [] c) = some (.plain, [c]) := by
+  by_cases h : c.toNat < 128
+  · have := py_unit_ascii c.toNat h
+    rwa [Char.ofNat_toNat] at this
+  · have h' : 128 ≤ c.toNat := by omega
+    rw [unit_high _ _ h']
+    simp only [inRanges, List.any_nil, Bool.false_eq_true, if_false]
+    refine runPre_single pyCfg c h' ?_
+    have h1 := ne_of_high c '\n' h' (by decide)
+    have h2 := ne_of_high c '\r' h' (by decide)
+    simp [pyCfg, h1, h2]; omega
+
+theorem reescape_nil (t : List Char) : reescape [] t = t := by
+  simp [reescape, inRanges]
+
+/-- The text written for a string (and for a field name) by `PythonFormat` is a Python string
+    literal whose value is the source string. -/
+theorem py_literal_roundtrip (s : List Char) : pyLiteral (pyStr s) = some s := by
+  have hq : inRanges [] '"' = false := by decide
+  rw [pyStr, ← reescape_nil (escJson s), reescape_escJson _ hq]
+  exact run_flatMap pyCfg _ py_unit s
+
+/-! ## YAML double-quoted scalars -/
+
+set_option maxRecDepth 100000 in
+theorem yaml_unit_ascii : ∀ n, n < 128 →
+    runPre yamlCfg .plain (unit YAML_EXTRA_ESCAPE (Char.ofNat n)) = some (.plain, [Char.ofNat n]) := by
+  decide +kernel
+
+theorem yaml_unit (c : Char) : runPre yamlCfg .plain (unit YAML_EXTRA_ESCAPE c) = some (.plain, [c]) := by
+  by_cases h : c.toNat < 128
+  · have := yaml_unit_ascii c.toNat h
+    rwa [Char.ofNat_toNat] at this
+  · have h' : 128 ≤ c.toNat := by omega
+    rw [unit_high _ _ h']
+    by_cases hin : inRanges YAML_EXTRA_ESCAPE c = true
+    · simp only [hin, if_true]
+      have hlt : c.toNat < 65536 := by
+        simp [inRanges, YAML_EXTRA_ESCAPE] at hin; omega
+      exact runPre_u4 yamlCfg c hlt (by decide) (by decide)
+    · simp only [hin]
+      refine runPre_single yamlCfg c h' ?_
+      have hv : c.toNat < 0xd800 ∨ (0xdfff < c.toNat ∧ c.toNat < 0x110000) := c.valid
+      simp [inRanges, YAML_EXTRA_ESCAPE] at hin
+      simp [yamlCfg, yamlLiteralOk]
+      omega
+
+/-- Every quoted string or key written by the YAML writer is a well-formed one-line double-quoted
+    scalar — only printable characters appear literally, none of them a line break even for a
+    YAML 1.1 reader — and decodes to exactly the source string. -/
+theorem yaml_dq_roundtrip (s : List Char) : yamlDq (escYaml s) = some s := by
+  have hq : inRanges YAML_EXTRA_ESCAPE '"' = false := by decide
+  rw [escYaml, reescape_escJson _ hq]
+  exact run_flatMap yamlCfg _ yaml_unit s
+
+/-! ## XML -/
+
+set_option maxRecDepth 100000 in
+theorem xml_text_unit_ascii : ∀ n, n < 128 → xmlChar (Char.ofNat n) = true →
+    xrunPre false .text (xmlEscChar 1 (Char.ofNat n)) = some (.text, [Char.ofNat n]) := by
+  decide +kernel
+
+set_option maxRecDepth 100000 in
+theorem xml_attr_unit_ascii : ∀ n, n < 128 → xmlChar (Char.ofNat n) = true →
+    xrunPre true .text (xmlEscChar 2 (Char.ofNat n)) = some (.text, [Char.ofNat n]) := by
+  decide +kernel
+
+/-- Character data written by the XML writer (context 1) contains only well-formed references and
+    no markup, and an XML reader — including end-of-line normalisation — gets the source string back,
+    for every string made of XML `Char`s. -/
+theorem xml_text_roundtrip (s : List Char) (h : s.all xmlChar = true) : xmlText (escXml 1 s) = some s := by
+  refine xrun_flatMap false _ s (fun c hc => ?_)
+  have hx : xmlChar c = true := List.all_eq_true.mp h c hc
+  by_cases hlt : c.toNat < 128
+  · have := xml_text_unit_ascii c.toNat hlt (by rwa [Char.ofNat_toNat])
+    rwa [Char.ofNat_toNat] at this
+  · rw [xmlEscChar_high _ _ (by omega)]
+    exact xrunPre_high false c (by omega) hx
+
+/-- The same for a double-quoted attribute value (context 2), whose reader also applies
+    attribute-value normalisation (tab, line feed, carriage return become spaces unless written as
+    character references). -/
+theorem xml_attr_roundtrip (s : List Char) (h : s.all xmlChar = true) : xmlAttr (escXml 2 s) = some s := by
+  refine xrun_flatMap true _ s (fun c hc => ?_)
+  have hx : xmlChar c = true := List.all_eq_true.mp h c hc
+  by_cases hlt : c.toNat < 128
+  · have := xml_attr_unit_ascii c.toNat hlt (by rwa [Char.ofNat_toNat])
+    rwa [Char.ofNat_toNat] at this
+  · rw [xmlEscChar_high _ _ (by omega)]
+    exact xrunPre_high true c (by omega) hx
+
+example : ("a<\"\n\r&é".toList).all xmlChar = true := by decide
+
+set_option maxRecDepth 100000 in
+theorem xml_no_markup_ascii : ∀ ctx, ctx < 3 → ∀ n, n < 128 → ∀ c, c ∈ xmlEscChar ctx (Char.ofNat n) →
+    c ≠ '<' ∧ c ≠ '>' ∧ c ≠ '"' ∧ c ≠ '\'' := by
+  decide +kernel
+
+/-- In every context (std.escapeStringXML, character data, attribute value) the escaped text
+    contains none of `<`, `>`, `"`, `'`. -/
+theorem xml_escape_no_markup (ctx : Nat) (hctx : ctx < 3) (s : List Char) :
+    ∀ c, c ∈ escXml ctx s → c ≠ '<' ∧ c ≠ '>' ∧ c ≠ '"' ∧ c ≠ '\'' := by
+  intro c hc
+  simp only [escXml, List.mem_flatMap] at hc
+  obtain ⟨d, _, hcd⟩ := hc
+  by_cases hlt : d.toNat < 128
+  · have := xml_no_markup_ascii ctx hctx d.toNat hlt c (by rwa [Char.ofNat_toNat])
+    exact this
+  · rw [xmlEscChar_high _ _ (by omega)] at hcd
+    simp at hcd
+    subst hcd
+    exact ⟨ne_of_high c _ (by omega) (by decide), ne_of_high c _ (by omega) (by decide),
+      ne_of_high c _ (by omega) (by decide), ne_of_high c _ (by omega) (by decide)⟩
+
+/-! ## YAML plain (unquoted) keys and CLI values -/
+
+/-- What `bare_safe` lets through unquoted is never empty, consists of letters, digits and `-_./`
+    only (no indicator, blank or comment character), is not one of the YAML 1.1 bool / null / inf /
+    nan words in any casing, and is not a run of digits.  (The full exclusion of the YAML 1.1 int /
+    float / timestamp patterns is exercised through PyYAML, not proved.) -/
+theorem bareSafe_sound_basic (s : List Char) (h : bareSafe s = true) :
+    s ≠ [] ∧ s.all yamlPlainSafeChar = true ∧ isYaml11Word s = false ∧ isDigits s = false := by
+  refine ⟨?_, ?_, ?_, ?_⟩
+  · rintro rfl; revert h; decide
+  · have : s.all (inRanges YAML_CLASS_SAFE) = true := by
+      unfold bareSafe at h
+      by_cases hc : s.all (inRanges YAML_CLASS_SAFE) = true
+      · exact hc
+      · simp [hc] at h
+    simp only [List.all_eq_true] at this ⊢
+    exact fun c hc => yaml_safe_class c (this c hc)
+  · cases hw : isYaml11Word s with
+    | false => rfl
+    | true =>
+      exfalso
+      have hmem : s.map asciiLower ∈ yaml11Words := by simpa [isYaml11Word] using hw
+      obtain ⟨r, hr, hrl⟩ := words_reserved _ hmem
+      have : isReserved s = true := by
+        simp only [isReserved, List.any_eq_true]
+        refine ⟨r, hr, ?_⟩
+        simp only [eqIgnoreAsciiCase, hrl]
+        have : s.map lower = s.map asciiLower := List.map_congr_left (fun c _ => lower_eq c)
+        simp [this]
+      rw [bareSafe_false_of_reserved s this] at h
+      exact Bool.noConfusion h
+  · cases hd : isDigits s with
+    | false => rfl
+    | true => rw [bareSafe_false_of_digits s hd] at h; exact Bool.noConfusion h
+
+
+example : bareSafe "a-b.c/d_9".toList = true := by decide
+example : bareSafe "Yes".toList = false := by decide
+
+/-! ## YAML stream framing -/
+
+/-- Full statement: for every configuration, splitting the framed text at the document markers
+    gives back exactly the documents (as lines), provided no document line is itself a marker. -/
+def StreamFramingStmt : Prop :=
+  ∀ (cde nl : Bool) (docs : List (List Char)), (∀ d, d ∈ docs → GoodDoc d) →
+    streamDocs (yamlStream cde nl docs) = some (docs.map lines)
+
+/-- The current code violates it: an empty stream with `c_document_end` is "\n...\n", a document
+    end marker that ends no document (known finding `yaml_stream_empty_with_document_end`). -/
+theorem yaml_stream_framing_counterexample : ¬ StreamFramingStmt := by
+  intro h
+  have := h true true [] (by simp)
+  revert this
+  decide
+
+/-- It holds in every other case: at least one document, or no document end marker. -/
+theorem yaml_stream_framing_partial (cde nl : Bool) (docs : List (List Char))
+    (hne : docs ≠ [] ∨ cde = false) (hg : ∀ d, d ∈ docs → GoodDoc d) :
+    streamDocs (yamlStream cde nl docs) = some (docs.map lines) := by
+  cases docs with
+  | nil =>
+    rcases hne with h | h
+    · exact absurd rfl h
+    · subst h; cases nl <;> decide
+  | cons d rest =>
+    unfold streamDocs yamlStream
+    rw [lines_yamlStream_cons d rest _ (tail_shape cde nl)]
+    exact splitDocs_top d rest _ (tailL_mem cde nl) hg
+
+example : GoodDoc "a: 1\n---b: |\n  ---\n...x".toList := by
+  refine ⟨?_, ?_⟩ <;> decide
+
+/-! ## domains: a writer fails exactly on the values its format cannot denote -/
+
+/-- YAML, Python: accepted iff no function occurs anywhere in the value.  TOML: iff the value is an
+    object and neither a function nor null occurs anywhere.  PythonVars: an object without functions.
+    YAML stream: an array without functions.  XML: iff the value has JsonML shape (string, or array
+    starting with a tag string, optional attribute object, children of the same shape) and contains
+    no function.  (`accepts` mirrors where the writers `bail!`; `inDomain` is the declarative side.) -/
+theorem domain_rejected (v : V) :
+    accepts .yaml v = inDomain .yaml v ∧ accepts .python v = inDomain .python v ∧
+    accepts .toml v = inDomain .toml v ∧ accepts .pyvars v = inDomain .pyvars v ∧
+    accepts .yamlStream v = inDomain .yamlStream v ∧ accepts .xml v = inDomain .xml v := by
+  refine ⟨?_, ?_, ?_, ?_, ?_, ?_⟩
+  · simp [accepts, inDomain, noFunc_eq]
+  · simp [accepts, inDomain, noFunc_eq]
+  · cases v <;> simp [accepts, inDomain, noFuncNull_eq, V.isObj]
+  · cases v <;> simp [accepts, inDomain, noFunc_eq, V.isObj]
+  · cases v <;> simp [accepts, inDomain, V.isArr]
+    rename_i xs
+    have h0 : (V.arr xs).isFunc = false := rfl
+    simp [hasFunc, nodes, allList_eq, all_not_eq_not_any, h0]
+  · simp [accepts, inDomain, jsonml_eq]
+
+/-- the rejections the property names: null or a function anywhere in a TOML document, a function
+    anywhere for YAML / Python / XML, a non-JsonML shape for XML -/
+theorem domain_rejected_named (v : V) :
+    (hasNull v = true → accepts .toml v = false) ∧
+    (hasFunc v = true → accepts .toml v = false ∧ accepts .yaml v = false ∧ accepts .python v = false
+      ∧ accepts .pyvars v = false ∧ accepts .yamlStream v = false ∧ accepts .xml v = false) ∧
+    (isJsonml v = false → accepts .xml v = false) := by
+  obtain ⟨h1, h2, h3, h4, h5, h6⟩ := domain_rejected v
+  refine ⟨fun h => ?_, fun h => ⟨?_, ?_, ?_, ?_, ?_, ?_⟩, fun h => ?_⟩
+  · rw [h3]; simp [inDomain, h]
+  · rw [h3]; simp [inDomain, h]
+  · rw [h1]; simp [inDomain, h]
+  · rw [h2]; simp [inDomain, h]
+  · rw [h4]; simp [inDomain, h]
+  · rw [h5]; simp [inDomain, h]
+  · rw [h6]; simp [inDomain, h]
+  · rw [h6]; simp [inDomain, h]
+
+example : hasNull (.obj [("a".toList, .arr [.num "1".toList, .null])]) = true := by decide
+example : isJsonml (.arr [.str "a".toList, .num "1".toList]) = false := by decide
+
+end JrsVerif.Props.C14
